@@ -1,7 +1,7 @@
 #!/bin/bash
 # usage: tools/nt.sh [names…]  — run all rules on the cached facts of the independent neutral refactorings (.scratch/nt/*), print alarms
 cd /verif
-for d in ${@:-$(ls .scratch/nt)}; do
-  out=$(./check ALL --facts .scratch/nt/$d --no-evidence 2>&1 | grep -vE "^KNOWN-FINDING|^VIOLATION" | grep -E "\|" | cut -c1-${W:-250} | sort -u)
-  if [ -z "$out" ]; then echo "== $d silent"; else echo "== $d"; echo "$out"; fi
-done
+one(){ d=$1; out=$(./check ALL --facts .scratch/nt/$d --no-evidence 2>&1 | grep -vE "^KNOWN-FINDING|^VIOLATION" | grep -E "\|" | cut -c1-${W:-250} | sort -u)
+  if [ -z "$out" ]; then echo "== $d silent"; else echo "== $d"; echo "$out"; fi; }
+export -f one; export W
+printf '%s\n' ${@:-$(ls .scratch/nt)} | xargs -P ${J:-12} -I{} bash -c 'one {}' | grep -v "conda.cli"
